@@ -21,6 +21,7 @@ type SendGate struct {
 	since   time.Time
 	Windows [][2]time.Time // closed intervals, for oracles that reason about timing
 	Held    int            // senders that actually waited
+	closed  bool
 }
 
 func (g *SendGate) Install() {
@@ -45,10 +46,18 @@ func (g *SendGate) Uninstall() {
 	simhook.SetYield(nil)
 }
 
+// Close releases every held sender and makes later Park calls no-ops.
+func (g *SendGate) Close() {
+	g.Release()
+	g.mu.Lock()
+	g.closed = true
+	g.mu.Unlock()
+}
+
 func (g *SendGate) Park() {
 	g.mu.Lock()
 	defer g.mu.Unlock()
-	if g.gate == nil {
+	if g.gate == nil && !g.closed {
 		g.gate = make(chan struct{})
 		g.since = time.Now()
 	}
